@@ -5,6 +5,7 @@ from contextlib import contextmanager
 from pathlib import Path
 from typing import IO, List, Dict, Union, Tuple, Any, Iterable, Sequence, Mapping
 import typing as T
+from collections.abc import Hashable
 from warnings import warn
 
 import yaml
@@ -688,10 +689,23 @@ def categorize_top_level_objects(data: List, context: ParseContext):
     return top_level_collections
 
 
+def check_name_is_hashable(obj: Dict, declaration: str, context: ParseContext):
+    """Options and macros are looked up by name, so names cannot be lists or mappings"""
+    if not isinstance(obj[declaration], Hashable):
+        raise exc.DataGenSyntaxError(
+            f"`{declaration}` should be a name, not `{obj[declaration]}`",
+            **context.line_num(obj),
+        )
+
+
 def parse_top_level_elements(path: Path, data: List, context: ParseContext):
     top_level_objects = categorize_top_level_objects(data, context)
     statements: List[ObjectTemplate] = []
     statements.extend(parse_included_files(path, data, context))
+    for obj in top_level_objects["option"]:
+        check_name_is_hashable(obj, "option", context)
+    for obj in top_level_objects["macro"]:
+        check_name_is_hashable(obj, "macro", context)
     context.options.extend(top_level_objects["option"])
     context.macros.update({obj["macro"]: obj for obj in top_level_objects["macro"]})
     plugin_specs = [
